@@ -10,6 +10,7 @@ import (
 	"sync"
 	"time"
 
+	"raven/internal/db"
 	"raven/internal/delivery/lmtp"
 	"raven/internal/delivery/parser"
 	"raven/internal/delivery/storage"
@@ -60,8 +61,13 @@ func (c *scriptConn) SetWriteDeadline(t time.Time) error { return nil }
 func init() {
 	// lmtp_script: {"op":"lmtp_script","programs":[{"input":bytes,"chunk":n}, ...],
 	//               cfg fields as for lmtp_open}
-	//  -> {"rs":[{"out":bytes,"returned":bool,"unread":n,"panic":..}, ...]}
-	// Every program is a fresh Session on the same storage.
+	//  -> {"rs":[{"out":bytes,"returned":bool,"unread":n,"panic":..,"stored":{addr:[[size,text],..]}}, ...]}
+	// Every program is a fresh Session on the same storage.  A program may name
+	// mail addresses in "observe": after the session the messages in each of
+	// these users' stores are reported in order of arrival as
+	// [messages.size_bytes, text_content of the parts] (what delivery stored:
+	// for a single-part message the octets after the header, and the size of
+	// the whole message).
 	register("lmtp_script", func(w *World, op Op) Obs {
 		cfg := lmtpConfig(op)
 		stor := storage.NewStorage(w.deliveryMgr(false))
@@ -95,6 +101,13 @@ func init() {
 			res["out"] = b2s(conn.out.Bytes())
 			res["unread"] = conn.in.Len()
 			conn.mu.Unlock()
+			if obs := po.strs("observe"); len(obs) > 0 && res["returned"] == true {
+				stored := map[string]interface{}{}
+				for _, addr := range obs {
+					stored[b2s([]byte(addr))] = storedMessages(w, addr)
+				}
+				res["stored"] = stored
+			}
 			rs = append(rs, res)
 		}
 		return Obs{"rs": rs}
@@ -109,4 +122,45 @@ func init() {
 		}
 		return parser.ValidateMessage(msg, int64(n[0])) == nil
 	}
+}
+
+// storedMessages: [[size_bytes, text_content...], ...] of the messages in the
+// store of the user with this address, oldest first; nil if there is no such user.
+func storedMessages(w *World, addr string) interface{} {
+	mgr := w.deliveryMgr(false)
+	uid, err := db.GetUserByEmail(mgr.GetSharedDB(), addr)
+	if err != nil {
+		return []interface{}{}
+	}
+	udb, err := mgr.GetUserDB(uid)
+	if err != nil {
+		return map[string]interface{}{"error": err.Error()}
+	}
+	rows, err := queryRows(udb, `SELECT m.id, m.size_bytes, COALESCE(p.text_content, ''), p.blob_id IS NOT NULL
+	    FROM messages m LEFT JOIN message_parts p ON p.message_id = m.id ORDER BY m.id, p.id`)
+	if err != nil {
+		return map[string]interface{}{"error": err.Error()}
+	}
+	out := []interface{}{}
+	var cur []interface{}
+	var curID interface{}
+	for _, r := range rows {
+		if cur == nil || r[0] != curID {
+			if cur != nil {
+				out = append(out, cur)
+			}
+			curID = r[0]
+			cur = []interface{}{r[1], ""}
+		}
+		if t, ok := r[2].(string); ok {
+			cur[1] = cur[1].(string) + t
+		}
+		if b, ok := r[3].(int64); ok && b != 0 {
+			cur = append(cur, "blob")
+		}
+	}
+	if cur != nil {
+		out = append(out, cur)
+	}
+	return out
 }
